@@ -361,45 +361,46 @@ EXTRA = {
     "C02": " One-off exhaustive cells: names governed by one wildcard declaration with static handlers "
            "(all histories up to length 3 over 3 names x 2 values on two instances); two instances carrying "
            "a same-named instance trait with different comparison modes. The last bulk route is part of the "
-           "state key (trait_setq switches a hidden per-object mode).",
+           "state key (trait_setq switches a hidden per-object mode). Values include numpy arrays (a != without a truth value); @observe methods carrying a magic name.",
     "C03": " Validation must leave the caller's own tuple alone; cells with a Map whose mapping is changed "
            "after the trait was defined.",
     "C04": " Owners are collection-like (falsy while the container is empty); whole-value assignment also "
-           "with a detached deep copy of the trait's own value as carrier of the items.",
+           "with a detached deep copy of the trait's own value as carrier of the items. Further configurations: Undefined as invalid item, a user trait type raising message-only TraitErrors, equal length bounds; cells for two-deep containers of a class given by name, defaults of length-bounded lists, one definition shared by two attributes.",
     "C05": " Right-hand sides include the list itself and replacements by equal values of another type "
            "(change = another value or type at some position); a bare mode has no notifier at all; the "
-           "owner is falsy while its list is empty.",
-    "C06": " A bare mode has no notifier at all; the owner is falsy while its dict is empty.",
+           "owner is falsy while its list is empty. An owner mode on a List trait with length bounds 1..4.",
+    "C06": " A bare mode has no notifier at all; the owner is falsy while its dict is empty. A user subclass with __missing__.",
     "C07": " A bare mode has no notifier at all; the owner is falsy while its set is empty; the trait value "
            "itself is shallow-copied too.",
     "C08": " One-off exhaustive cells: a change handler (the observe handler itself, or an on_trait_change "
            "handler registered before / after the observer) re-assigns the observed link while the "
            "assignment is being dispatched (all start/new/replacement combinations over the pool); an "
-           "observable constant default (Any(obj)) is one of the expressions.",
+           "observable constant default (Any(obj)) is one of the expressions. Cells for wildcard-governed attributes coming into being under an observer.",
     "C10": " A dynamic Range whose number type follows the instance's bounds is among the default kinds "
-           "(floats are compared typed).",
+           "(floats are compared typed). A cell for a default whose announcement fails.",
     "C11": " A variant attaches and detaches the deferring attribute's handlers during the history; a "
-           "history ending in a refused write is kept apart from the unchanged state.",
+           "history ending in a refused write is kept apart from the unchanged state. Kinds with a Property-valued delegate / prototype attribute; all instances are of a subclass that adds nothing.",
     "C12": " Also a cached property whose value is None most of the time and a dependency holding values "
-           "whose == raises AttributeError.",
+           "whose == raises AttributeError. A property observed through another property.",
     "C13": " One-off cells: a trait_added listener adds an instance trait for the very name whose first "
            "access announced it (that access is already governed by the instance trait); the _items "
            "companion of a removed List instance trait is compared with a control instance that never had "
-           "one. The instance-trait tables are part of the state key.",
+           "one. The instance-trait tables are part of the state key. Mapped instance traits and their shadow names.",
     "C14": " A trait nobody read before the copy, with a default that differs per computation, must read "
            "the same on original and copy; round-tripped definitions are also driven through base_trait, "
-           "validate_trait and clone_traits.",
+           "validate_trait and clone_traits. A prototyped attribute declared before its prototype holder; a list that may not be empty.",
     "C16": " One-off cells: a list of extended names registered and removed in every grouping and order "
-           "(5 x 5 forms).",
+           "(5 x 5 forms). Cells for Dict links with trait names ending in letters of '_items', for a removal naming an unregistered handler, for handler signatures with 0..4 arguments.",
     "C17": " Late registration also of a class with the protocol an offer adapts from.",
     "C18": " Two further cells: a default replaced by post_setattr during the first read; an "
-           "AttributeError in a default method with warnings turned into errors.",
-    "C19": " A fifth injected exception is a RuntimeError whose first argument is not a string.",
+           "AttributeError in a default method with warnings turned into errors. Cells for malformed factory arguments, star-prefix delegates with str-subclass names, a tuple whose later member raises, property_fields of round-tripped property definitions.",
+    "C19": " A fifth injected exception is a RuntimeError whose first argument is not a string. Cells for nested containment policies (every push/pop nesting up to depth 3, both handler systems).",
+    "C09": " One-off cells: registrations removed or added by a handler while it is being called (4 expressions x 5 actions x 1..2 registrations); anytrait observers with traits appearing later; lifetime (a closure cycle through the notifier list, a handler raising to the caller).",
     "C20": " One-off exhaustive cells: y derived from x by a change handler on one object with x and y "
            "linked in all 15 style combinations (all histories up to length 2 / 3 over 12 assignments); the "
            "style of a link changed by a second sync_trait call without removal. A history ending in a "
            "refused push is kept apart from the unchanged state; thorough uses the reduced menu at its "
-           "last level.",
+           "last level. A list trait whose name contains '_items'.",
 }
 for _k, _v in EXTRA.items():
     CHECKS[_k]["text"] += _v
